@@ -242,6 +242,11 @@ def run_item(item):
         roles = gen.roles_from_unified([term.strip_escapes(l.decode('utf-8', 'replace')) for l in lines])
     else:
         kind, lines, roles, trailing = gen_input(rng)
+    if rng.random() < 0.15 and len(lines) > 2:
+        # the diff is cut at a line boundary (git diff | head -n N): still one output line per input line
+        cut = rng.randint(1, len(lines) - 1)
+        lines, roles = lines[:cut], roles[:cut]
+        cls = cls + ['truncated-input']
     data = b'\n'.join(lines) + (b'\n' if trailing else b'')
     args = gen.to_args(cli)
     if cfgtext is not None:
